@@ -425,7 +425,9 @@ impl<'a> UserModel<'a> {
                             .delete_cell_link(sheet, target_row, target_column)?,
                     }
                 }
-                if value.link.is_some() {
+                // Redo and other replicas re-apply the value, which auto-creates
+                // the link again: its removal has to be replayed too.
+                if value.link.is_some() || current_link.is_some() {
                     diff_list.push(Diff::SetCellLink {
                         sheet,
                         row: target_row,
